@@ -16,6 +16,7 @@ pub mod env;
 pub mod purge;
 pub mod lazy;
 pub mod twin;
+pub mod wdrop;
 
 pub use env::*;
 
